@@ -253,6 +253,10 @@ V("C13", "torch-memo-private-copy", "silent", "", "torch shim remembers the last
   ("src/pyhf/optimize/opt_pytorch.py", '    if do_grad:\n\n        def func(pars):\n            pars = tensorlib.astensor(pars)\n            pars.requires_grad = True\n', "    if do_grad:\n        last = {'pars': None, 'result': None}\n\n        def func(pars):\n            pars = tensorlib.astensor(pars)\n            if last['pars'] is not None and torch.equal(pars, last['pars']):\n                return last['result']\n            pars.requires_grad = True\n"), ("src/pyhf/optimize/opt_pytorch.py", '            return constr_nll.detach().numpy()[0], grad\n', "            last['pars'] = pars.detach().clone()\n            last['result'] = (constr_nll.detach().numpy()[0], grad)\n            return last['result']\n"))
 V("C01", "histosys-builder-class-level-data", "fire", "C01.R11", "histosys builder collects into ONE class-level dict: a later model sees the earlier model's modifier data",
   ("src/pyhf/modifiers/histosys.py", "    is_shared = True\n\n    def __init__(self, config):\n        self.builder_data = {}", "    is_shared = True\n    _collected = {}\n\n    def __init__(self, config):\n        self.builder_data = histosys_builder._collected"))
+V("C06", "free-fit-memo-by-identity", "fire", "C06.R7", "the unconstrained fit is remembered per data OBJECT: a list refilled in place is served the previous fit",
+  ("src/pyhf/infer/test_statistics.py", 'def __dir__():\n    return __all__\n', 'def __dir__():\n    return __all__\n\n\n_FREE_FITS = {}\n'), ("src/pyhf/infer/test_statistics.py", '    muhatbhat, unconstrained_fit_lhood_val = fit(\n        data, pdf, init_pars, par_bounds, fixed_params, return_fitted_val=True\n    )\n    log_likelihood_ratio = fixed_poi_fit_lhood_val - unconstrained_fit_lhood_val\n', '    if id(data) not in _FREE_FITS:\n        _FREE_FITS[id(data)] = fit(\n            data, pdf, init_pars, par_bounds, fixed_params, return_fitted_val=True\n        )\n    muhatbhat, unconstrained_fit_lhood_val = _FREE_FITS[id(data)]\n    log_likelihood_ratio = fixed_poi_fit_lhood_val - unconstrained_fit_lhood_val\n'))
+V("C06", "free-fit-temp", "silent", "", "free fit result unpacked through a temporary",
+  ("src/pyhf/infer/test_statistics.py", '    muhatbhat, unconstrained_fit_lhood_val = fit(\n        data, pdf, init_pars, par_bounds, fixed_params, return_fitted_val=True\n    )\n    log_likelihood_ratio = fixed_poi_fit_lhood_val - unconstrained_fit_lhood_val\n', '    free_fit = fit(\n        data, pdf, init_pars, par_bounds, fixed_params, return_fitted_val=True\n    )\n    muhatbhat, unconstrained_fit_lhood_val = free_fit\n    log_likelihood_ratio = fixed_poi_fit_lhood_val - unconstrained_fit_lhood_val\n'))
 
 # ------------------------------------------------------------------ C08
 INF = "src/pyhf/infer/__init__.py"
